@@ -147,6 +147,19 @@ def history(rng, length=None, al=None, p_branch=0.0, maint=True, p_extra=0.35, o
             steps.append({"op": rng.choice(["simplify", "downsize", "simplify"]), "s": s})
         else:
             steps.append(query_step(al, rng, s, ops=ops, p_extra=p_extra))
+    if maint and rng.random() < 0.35:
+        # query patterns whose answers tempt a cache: every expression enumerated on its own, then together; an
+        # optimum asked twice and in the other signedness; the same eval with and without an extra constraint
+        x, y = al.v(0), al.v(1 % al.nvars)
+        s = rng.randrange(nsolvers)
+        pat = rng.choice([
+            [{"op": "eval", "s": s, "e": x, "n": 70, "extra": []}, {"op": "eval", "s": s, "e": y, "n": 70, "extra": []}, {"op": "batch_eval", "s": s, "es": [x, y], "n": 300, "extra": []}, {"op": "batch_eval", "s": s, "es": [y, x, ["add", x, y]], "n": 300, "extra": []}],
+            [{"op": "max", "s": s, "e": x, "signed": False, "extra": []}, {"op": "max", "s": s, "e": x, "signed": True, "extra": []}, {"op": "min", "s": s, "e": x, "signed": True, "extra": []}, {"op": "max", "s": s, "e": x, "signed": False, "extra": al.extras(1.0)}, {"op": "max", "s": s, "e": x, "signed": False, "extra": []}],
+            [{"op": "eval", "s": s, "e": x, "n": 70, "extra": al.extras(1.0)}, {"op": "eval", "s": s, "e": x, "n": 70, "extra": []}, {"op": "solution", "s": s, "e": x, "v": rng.getrandbits(al.w), "extra": []}, {"op": "satisfiable", "s": s, "extra": []}],
+            [{"op": "satisfiable", "s": s, "extra": []}, {"op": "add", "s": s, "cons": [al.constraint(), al.constraint()]}, {"op": "satisfiable", "s": s, "extra": []}, {"op": "add", "s": s, "cons": [al.constraint() for _ in range(5)]}, {"op": "satisfiable", "s": s, "extra": []}, {"op": "eval", "s": s, "e": x, "n": 70, "extra": []}],
+        ])
+        pos = rng.randrange(0, len(steps) + 1)
+        steps[pos:pos] = pat
     return al, steps
 
 
